@@ -13,13 +13,25 @@
 //!   build suffix <sa: comma separated | ->     -> same   (sa = suffix array of old)
 //!   apply mem <ctl-bytes> <diff> <extra> <out> -> <hex> | err:<class>
 //!   apply stream <buf> <ctl-bytes> <diff> <extra> <out> -> same
+//!   apply streamd <ctl-bytes> <diff> <extra> <out>          -> same (ZbsdiffPatcher::new default buffer, no with_buffer_size)
+//!   apply sread <k,k,…> <buf> <ctl-bytes> <diff> <extra> <out> -> same; the old file is a Read+Seek source whose i-th
+//!                                                 read() returns at most k[i mod n] (>= 1) bytes
+//!   apply noseek <buf> <ctl-bytes> <diff> <extra> <out>     -> err:seek (every seek of the source fails)
+//! whole patch BYTES (zlib is a table on the line: the model looks its own blocks / slices up, a miss is err:z-miss):
+//!   buildp simple|chunked <blk>|suffix <sa> {<inflated> <compressed>}*   -> <patch hex> | err:<class>
+//!   applyp mem <patch> {<compressed> <inflated|!>}*            -> <hex> | err:<class>   (apply_patch_memory)
+//!   applyp stream <buf> <patch> {<compressed> <inflated|!>}*   -> same (parse_from_patch + new + apply_patch_from_data)
+//!   hdr <bytes>                                -> ok <control_size> <diff_size> <output_size> | err:<class>  (parse_from_patch)
+//!   container <bytes>                          -> ok <c> <d> <o> c=<hex> d=<hex> e=<hex> rebuilt=same|differs  (ZbsDiff::parse / build)
+//!   codec enc <i64>                            -> 8 bytes written by ControlBlock::to_compressed for that seek (private offtout)
+//!   codec dec <8 bytes>                        -> the seek ControlBlock::from_compressed reads (private offtin)
 //! `<ctl-bytes>` is the inflated control block (24-byte sign-magnitude records), the blocks are
 //! the inflated diff / extra blocks, all recovered from the patch BYTES the builder returned.
 use cascette_formats::zbsdiff::{
-    ControlBlock, ZBSDIFF1_SIGNATURE, ZbsdiffBuilder, ZbsdiffError, ZbsdiffHeader,
+    ControlBlock, ControlEntry, ZBSDIFF1_SIGNATURE, ZbsDiff, ZbsdiffBuilder, ZbsdiffError, ZbsdiffHeader,
     ZbsdiffPatcher, apply_patch_memory, compress_zlib, decompress_zlib,
 };
-use std::io::Cursor;
+use std::io::{Cursor, Read, Seek, SeekFrom};
 use std::panic::AssertUnwindSafe;
 use verif_harness::*;
 
@@ -44,6 +56,124 @@ fn err_class(e: &ZbsdiffError) -> &'static str {
         ZbsdiffError::InvalidSize { .. } | ZbsdiffError::SizeTooLarge(_) | ZbsdiffError::InvalidSignature { .. } => "err:header",
         _ => "err:other",
     }
+}
+
+/// error classes of the whole-patch entry points (header / zlib / old-source errors kept apart)
+fn err_class_p(e: &ZbsdiffError) -> String {
+    match e {
+        ZbsdiffError::BinaryFormatError(b) => {
+            if format!("{b}").contains("failed to fill whole buffer") { "err:hdr-short".into() } else { "err:binrw-other".into() }
+        }
+        ZbsdiffError::CorruptPatch { reason } if reason.starts_with("Invalid header signature") => "err:sig".into(),
+        ZbsdiffError::DecompressionError(_) => "err:zlib".into(),
+        ZbsdiffError::OldFileReadError(_) => "err:old-read".into(),
+        ZbsdiffError::CompressionError(io) if io.kind() == std::io::ErrorKind::Unsupported => "err:seek".into(),
+        _ => err_class(e).to_string(),
+    }
+}
+
+/// the old file as a `Read + Seek` whose i-th `read` returns at most ks[i mod n] (>= 1) bytes
+struct ShortReader {
+    data: Vec<u8>,
+    pos: u64,
+    ks: Vec<usize>,
+    calls: usize,
+    seekable: bool,
+}
+
+impl Read for ShortReader {
+    fn read(&mut self, buf: &mut [u8]) -> std::io::Result<usize> {
+        let k = if self.ks.is_empty() { 1 } else { self.ks[self.calls % self.ks.len()].max(1) };
+        self.calls += 1;
+        let pos = (self.pos as usize).min(self.data.len());
+        let n = buf.len().min(k).min(self.data.len() - pos);
+        buf[..n].copy_from_slice(&self.data[pos..pos + n]);
+        self.pos += n as u64;
+        Ok(n)
+    }
+}
+
+impl Seek for ShortReader {
+    fn seek(&mut self, to: SeekFrom) -> std::io::Result<u64> {
+        if !self.seekable {
+            return Err(std::io::Error::from(std::io::ErrorKind::Unsupported));
+        }
+        let np: i128 = match to {
+            SeekFrom::Start(p) => p as i128,
+            SeekFrom::End(d) => self.data.len() as i128 + d as i128,
+            SeekFrom::Current(d) => self.pos as i128 + d as i128,
+        };
+        if np < 0 {
+            return Err(std::io::Error::from(std::io::ErrorKind::InvalidInput));
+        }
+        self.pos = np as u64;
+        Ok(self.pos)
+    }
+}
+
+fn res_p(r: Result<Result<Vec<u8>, ZbsdiffError>, String>) -> Result<Vec<u8>, String> {
+    match r {
+        Err(_) => Err("panic".into()),
+        Ok(Ok(v)) => Ok(v),
+        Ok(Err(e)) => Err(err_class_p(&e)),
+    }
+}
+
+/// whole-patch entry points with the header / zlib error classes
+fn apply_p(mode: Mode, old: &[u8], patch: &[u8]) -> Result<Vec<u8>, String> {
+    res_p(catch(AssertUnwindSafe(|| match mode {
+        Mode::Mem => apply_patch_memory(old, patch),
+        Mode::Stream(buf) => {
+            let h = ZbsdiffHeader::parse_from_patch(patch)?;
+            ZbsdiffPatcher::new(Cursor::new(old.to_vec()), h.output_size as usize).with_buffer_size(buf).apply_patch_from_data(patch)
+        }
+    })))
+}
+
+/// streaming patcher over a short-reading (or unseekable) source, documented construction
+fn apply_src(ks: &[usize], seekable: bool, buf: Option<usize>, old: &[u8], patch: &[u8]) -> Result<Vec<u8>, String> {
+    res_p(catch(AssertUnwindSafe(|| {
+        let h = ZbsdiffHeader::parse_from_patch(patch)?;
+        let src = ShortReader { data: old.to_vec(), pos: 0, ks: ks.to_vec(), calls: 0, seekable };
+        let p = ZbsdiffPatcher::new(src, h.output_size as usize);
+        let p = match buf { Some(b) => p.with_buffer_size(b), None => p };
+        p.apply_patch_from_data(patch)
+    })))
+}
+
+/// the harness's own reading of the container layout (three little-endian i64 after the signature)
+fn raw_split(p: &[u8]) -> Option<(&[u8], &[u8], &[u8])> {
+    if p.len() < 32 {
+        return None;
+    }
+    let c = i64::from_le_bytes(p[8..16].try_into().unwrap());
+    let d = i64::from_le_bytes(p[16..24].try_into().unwrap());
+    if c < 0 || d < 0 || (c as u128) + (d as u128) > (p.len() - 32) as u128 {
+        return None;
+    }
+    let (c, d) = (c as usize, d as usize);
+    Some((&p[32..32 + c], &p[32 + c..32 + c + d], &p[32 + c + d..]))
+}
+
+/// zlib table for an `applyp` line: what the real decompress_zlib returns on each of the three slices
+fn unz_pairs(p: &[u8]) -> String {
+    let mut t = String::new();
+    if let Some((c, d, e)) = raw_split(p) {
+        for sl in [c, d, e] {
+            let v = match decompress_zlib(sl) { Ok(v) => hex(&v), Err(_) => "!".into() };
+            t.push_str(&format!(" {} {}", hex(sl), v));
+        }
+    }
+    t
+}
+
+/// zlib table for a `buildp` line: what the real compress_zlib returns on each inflated block
+fn z_pairs(b: &Blocks) -> String {
+    let mut t = String::new();
+    for blk in [&b.raw, &b.diff, &b.extra] {
+        t.push_str(&format!(" {} {}", hex(blk), hex(&compress_zlib(blk).expect("zlib"))));
+    }
+    t
 }
 
 /// sign-magnitude (bsdiff offtout), written here independently of the crate's private encoder
@@ -188,8 +318,85 @@ fn run_line(st: &mut St, toks: &[&str]) -> Option<String> {
             let p = make_patch(&unhex(c)?, &unhex(d)?, &unhex(e)?, out.parse().ok()?);
             apply_resp(apply_stream_caller(caller.parse().ok()?, buf.parse().ok()?, &st.old, &p))
         }
+        ["apply", "streamd", c, d, e, out] => {
+            let p = make_patch(&unhex(c)?, &unhex(d)?, &unhex(e)?, out.parse().ok()?);
+            let r = catch(AssertUnwindSafe(|| {
+                let h = ZbsdiffHeader::parse_from_patch(&p)?;
+                ZbsdiffPatcher::new(Cursor::new(st.old.clone()), h.output_size as usize).apply_patch_from_data(&p)
+            }));
+            apply_resp(match r { Err(_) => Err("panic".into()), Ok(Ok(v)) => Ok(v), Ok(Err(e)) => Err(err_class(&e).to_string()) })
+        }
+        ["apply", "sread", ks, buf, c, d, e, out] => {
+            let ks: Vec<usize> = ks.split(',').map(|x| x.parse().ok()).collect::<Option<Vec<_>>>()?;
+            let p = make_patch(&unhex(c)?, &unhex(d)?, &unhex(e)?, out.parse().ok()?);
+            apply_resp(apply_src(&ks, true, Some(buf.parse().ok()?), &st.old, &p))
+        }
+        ["apply", "noseek", buf, c, d, e, out] => {
+            let p = make_patch(&unhex(c)?, &unhex(d)?, &unhex(e)?, out.parse().ok()?);
+            apply_resp(apply_src(&[1], false, Some(buf.parse().ok()?), &st.old, &p))
+        }
+        ["buildp", "simple", ..] => buildp_resp(build("simple", 1 << 20, &st.old, &st.new)),
+        ["buildp", "chunked", blk, ..] => buildp_resp(build("chunked", blk.parse().ok()?, &st.old, &st.new)),
+        ["buildp", "suffix", _sa, ..] => buildp_resp(build("suffix", 1 << 20, &st.old, &st.new)),
+        ["applyp", "mem", p, ..] => apply_resp(apply_p(Mode::Mem, &st.old, &unhex(p)?)),
+        ["applyp", "stream", buf, p, ..] => apply_resp(apply_p(Mode::Stream(buf.parse().ok()?), &st.old, &unhex(p)?)),
+        ["hdr", p] => {
+            let p = unhex(p)?;
+            match catch(AssertUnwindSafe(|| ZbsdiffHeader::parse_from_patch(&p))) {
+                Err(_) => "panic".into(),
+                Ok(Ok(h)) => format!("ok {} {} {}", h.control_size, h.diff_size, h.output_size),
+                Ok(Err(e)) => err_class_p(&e),
+            }
+        }
+        ["container", p] => {
+            let p = unhex(p)?;
+            match catch(AssertUnwindSafe(|| ZbsDiff::parse(&p))) {
+                Err(_) => "panic".into(),
+                Ok(Ok(z)) => {
+                    let same = z.build().map(|b| b == p).unwrap_or(false);
+                    format!("ok {} {} {} c={} d={} e={} rebuilt={}", z.header.control_size, z.header.diff_size, z.header.output_size,
+                        hex(&z.control_data), hex(&z.diff_data), hex(&z.extra_data), if same { "same" } else { "differs" })
+                }
+                Ok(Err(e)) => err_class_p(&e),
+            }
+        }
+        ["codec", "enc", v] => {
+            // the crate's private offtout, reached through ControlBlock::to_compressed
+            let v: i64 = v.parse().ok()?;
+            let r = catch(AssertUnwindSafe(|| {
+                let cb = ControlBlock { entries: vec![ControlEntry::new(0, 0, v)] };
+                cb.to_compressed().and_then(|z| decompress_zlib(&z))
+            }));
+            match r {
+                Err(_) => "panic".into(),
+                Ok(Ok(raw)) if raw.len() == 24 => hex(&raw[16..24]),
+                Ok(Ok(_)) => "err:record-size".into(),
+                Ok(Err(e)) => err_class_p(&e),
+            }
+        }
+        ["codec", "dec", b] => {
+            // the crate's private offtin, reached through ControlBlock::from_compressed
+            let b = unhex(b)?;
+            if b.len() != 8 { return None; }
+            let mut raw = vec![0u8; 16];
+            raw.extend_from_slice(&b);
+            let r = catch(AssertUnwindSafe(|| ControlBlock::from_compressed(&compress_zlib(&raw)?)));
+            match r {
+                Err(_) => "panic".into(),
+                Ok(Ok(cb)) if cb.entries.len() == 1 => cb.entries[0].seek_offset.to_string(),
+                Ok(Ok(_)) => "err:record-count".into(),
+                Ok(Err(e)) => err_class_p(&e),
+            }
+        }
         _ => return None,
     })
+}
+
+fn buildp_resp(r: Result<Vec<u8>, String>) -> String {
+    match r {
+        Ok(p) => hex(&p),
+        Err(e) => e,
+    }
 }
 
 fn apply_stream_caller(caller: usize, buf: usize, old: &[u8], patch: &[u8]) -> Result<Vec<u8>, String> {
@@ -342,10 +549,107 @@ fn pair(cx: &mut Ctx, rng: &mut Rng, old: &[u8], new: &[u8], blks: &[usize], lab
             let key = format!("{bname}|{}|{}|{}", mode_txt(m), hex(old), hex(new));
             s.case(if nontrivial { Some(&key) } else { None });
         }
+        // --- whole patch BYTES (K): the model assembles header + zlib framing from its own blocks and
+        //     must return the very bytes the builder returned; then both entry points on those bytes
+        let bpreq = format!("buildp {}{}", &breq["build ".len()..], z_pairs(&b));
+        emit(s, &mut cx.st, bpreq);
+        s.tally("bytes.buildp");
+        let zt = unz_pairs(&patch);
+        emit(s, &mut cx.st, format!("applyp mem {}{}", hex(&patch), zt));
+        emit(s, &mut cx.st, format!("applyp stream {} {}{}", cx.bufs[0], hex(&patch), zt));
+        s.tally_n("bytes.applyp", 2);
+        if rng.chance(1, 8) {
+            emit(s, &mut cx.st, format!("hdr {}", hex(&patch)));
+            emit(s, &mut cx.st, format!("container {}", hex(&patch)));
+            s.tally("bytes.container-intact");
+        }
+        // --- short-reading old source: K on the blocks, O on the patch bytes
+        {
+            let ks: Vec<usize> = match rng.below(5) {
+                0 => vec![1],
+                1 => vec![1, 2, 3],
+                2 => vec![7, 1],
+                3 => { let (a, b2, c) = (rng.range(1, 2000) as usize, rng.range(1, 9) as usize, rng.range(1, 300) as usize); vec![a, b2, c] }
+                _ => vec![usize::MAX >> 1],
+            };
+            let bf = *rng.pick(&cx.bufs);
+            let kst = ks.iter().map(|k| k.to_string()).collect::<Vec<_>>().join(",");
+            let areq = format!("apply sread {kst} {bf} {} {} {} {}", hex(&craw), hex(&b.diff), hex(&b.extra), b.out);
+            emit(s, &mut cx.st, areq.clone());
+            s.tally("apply.short-read");
+            let got = apply_src(&ks, true, Some(bf), old, &patch);
+            match &got {
+                Ok(v) if v == new => {}
+                Ok(v) => s.oracle_fail(&format!("short-read-wrong-output:{kind}"), &format!("{bname} patch applied through a source returning <= {kst} bytes per read: Ok with {} bytes differing from new", v.len()), &[begin.clone(), breq.clone(), areq.clone()]),
+                Err(e) => s.oracle_fail(&format!("short-read-fails:{kind}"), &format!("{bname} patch rejected ({e}) when the old file is read through a source returning <= {kst} bytes per read"), &[begin.clone(), breq.clone(), areq.clone()]),
+            }
+            if let Some(mr) = &mem_result {
+                if mr.as_ref().ok() != got.as_ref().ok() {
+                    s.oracle_fail("short-read-disagrees", &format!("{bname}: memory patcher {:?} vs short-reading source {:?}", mr.as_ref().map(|v| v.len()), got.as_ref().map(|v| v.len())), &[begin.clone(), breq.clone(), areq.clone()]);
+                }
+            }
+            let key = format!("sread|{bname}|{kst}|{bf}|{}|{}", hex(old), hex(new));
+            s.case(if nontrivial && !old.is_empty() { Some(&key) } else { None });
+        }
         // mutated patches: Ok => exactly header.output_size bytes; memory == streaming
         if cx.mutate && rng.chance(1, 3) {
             mutated(s, &mut cx.st, rng, old, &b, &begin);
         }
+        if cx.mutate && rng.chance(1, 3) {
+            mutated_bytes(s, &mut cx.st, rng, old, &patch, &begin);
+        }
+    }
+}
+
+/// byte-level damage to a real patch: header fields, signature, truncation, garbage — the length
+/// clause and memory == streaming on the WHOLE bytes, plus K on the header / container readers
+fn mutated_bytes(s: &mut Session, st: &mut St, rng: &mut Rng, old: &[u8], patch: &[u8], begin: &str) {
+    let mut p = patch.to_vec();
+    let put = |p: &mut Vec<u8>, off: usize, v: i64| { if p.len() >= off + 8 { p[off..off + 8].copy_from_slice(&v.to_le_bytes()); } };
+    let get = |p: &[u8], off: usize| i64::from_le_bytes(p[off..off + 8].try_into().unwrap());
+    let kind = rng.below(10);
+    let name = match kind {
+        0 => { let n = *rng.pick(&[0usize, 1, 7, 8, 9, 15, 16, 24, 31]); p.truncate(n); "trunc-header" }
+        1 => { let n = match rng.below(4) { 0 => 32, 1 => 33, 2 => p.len() - 1, _ => rng.range(32, p.len() as u64) as usize }; p.truncate(n); "trunc-body" }
+        2 => { let i = rng.below(8) as usize; p[i] ^= 1 << rng.below(8); if rng.chance(1, 2) { p.truncate(*rng.pick(&[8usize, 20, 31, 40])); } "signature" }
+        3 => { let c = get(&p, 8); let l = p.len() as i64; let v = *rng.pick(&[-1, 0, c + 1, c - 1, 1_000_000_001, 1_000_000_000, i64::MIN, i64::MAX, l - 32, l - 31]); put(&mut p, 8, v); "control-size" }
+        4 => { let d = get(&p, 16); let l = p.len() as i64; let v = *rng.pick(&[-1, 0, d + 1, d - 1, 1_000_000_001, 999_999_999, i64::MIN, i64::MAX, l - 32]); put(&mut p, 16, v); "diff-size" }
+        5 => { let o = get(&p, 24); let v = *rng.pick(&[-1, o + 1, (o - 1).max(0), 1_000_000_000, 1_000_000_001, i64::MIN, i64::MAX, o + (1 << 32), o | (1 << 63)]); put(&mut p, 24, v); "output-size" }
+        6 => { let n = rng.range(1, 9) as usize; p.extend(rng.bytes(n)); "trailing-garbage" }
+        7 => { let i = rng.range(32, p.len() as u64 - 1) as usize; p[i] ^= 1 << rng.below(8); "body-bit" }
+        8 => { let (c, d) = (get(&p, 8), get(&p, 16)); put(&mut p, 8, d); put(&mut p, 16, c); "sizes-swapped" }
+        _ => { let (c, d) = (get(&p, 8), get(&p, 16)); let rest = p.len() as i64 - 32 - c - d; let v = d + rest + *rng.pick(&[0i64, 1]); put(&mut p, 16, v); "diff-takes-extra" }
+    };
+    s.tally(&format!("byte-mutation.{name}"));
+    let zt = unz_pairs(&p);
+    let hx = hex(&p);
+    emit(s, st, format!("hdr {hx}"));
+    emit(s, st, format!("container {hx}"));
+    let stated: Option<i64> = if p.len() >= 32 { Some(get(&p, 24)) } else { None };
+    let mut mem: Option<Result<Vec<u8>, String>> = None;
+    for m in [Mode::Mem, Mode::Stream(1024)] {
+        let areq = format!("applyp {} {hx}{zt}", mode_txt(m));
+        let r = emit(s, st, areq.clone());
+        let got = apply_p(m, old, &p);
+        let mname = match m { Mode::Mem => "mem", Mode::Stream(_) => "stream" };
+        s.tally(&format!("byte-mutated-result.{}", if got.is_ok() { "ok" } else { r.as_str() }));
+        if let Ok(v) = &got {
+            if stated != Some(v.len() as i64) {
+                s.oracle_fail(&format!("ok-length-bytes:{mname}"), &format!("byte mutation {name}: Ok output of {} bytes, header says {:?}", v.len(), stated), &[begin.to_string(), areq.clone()]);
+            }
+        }
+        if got.as_ref().err().map(|e| e == "panic").unwrap_or(false) {
+            s.oracle_fail(&format!("apply-panics-bytes:{mname}"), &format!("byte mutation {name}: panic"), &[begin.to_string(), areq.clone()]);
+        }
+        match &mem {
+            None => mem = Some(got.clone()),
+            Some(mr) => {
+                if mr.as_ref().ok() != got.as_ref().ok() {
+                    s.oracle_fail("patchers-disagree-bytes", &format!("byte mutation {name}: memory {:?} vs streaming {:?}", mr.as_ref().map(|v| v.len()), got.as_ref().map(|v| v.len())), &[begin.to_string(), areq.clone()]);
+                }
+            }
+        }
+        s.case(Some(&format!("bmut|{areq}|{}", hex(old))));
     }
 }
 
@@ -468,7 +772,7 @@ fn main() {
     let args = Args::parse();
     quiet_panics();
     let mut s = Session::new(&args.out);
-    s.rule = "every (old,new) over {a,b} with both lengths <= L (L=4 quick, 6 thorough) x {simple, chunked blk in {0,1,4,64}, suffix} x {memory, streaming buf 1024[,4096]}; seeded random pairs to 4 KiB (edits: insert/delete/move/repeat/replace/point, empty old, empty new, equal, unrelated; alphabets 2, 4, 256) incl. a dedicated stream whose change is followed by >= 264 unchanged bytes with the inserted length a multiple of 256 or a periodic tail (the only way the chunked builder re-synchronises after an extra run), match runs of length 3/4/5 around the >=4 threshold, block sizes around the match length; mutated patches (sizes +-1, truncated blocks, seeks before 0 / beyond EOF / saturating, dropped / appended / invalid / partial control records) for the length clause. non-trivial = built patch has a diff run or >= 2 control entries (or is a mutated patch); distinct = (builder, patcher, old, new) text".into();
+    s.rule = "every (old,new) over {a,b} with both lengths <= L (L=4 quick, 6 thorough) x {simple, chunked blk in {0,1,4,64}, suffix} x {memory, streaming buf 1024[,4096]}; seeded random pairs to 4 KiB (edits: insert/delete/move/repeat/replace/point, empty old, empty new, equal, unrelated; alphabets 2, 4, 256) incl. a dedicated stream whose change is followed by >= 264 unchanged bytes with the inserted length a multiple of 256 or a periodic tail (the only way the chunked builder re-synchronises after an extra run), match runs of length 3/4/5 around the >=4 threshold, block sizes around the match length; mutated patches (sizes +-1, truncated blocks, seeks before 0 / beyond EOF / saturating, dropped / appended / invalid / partial control records) for the length clause. every built patch also as WHOLE BYTES (buildp: model-assembled header + framing vs the builder's bytes; applyp through apply_patch_memory and parse_from_patch + apply_patch_from_data) and through a short-reading old source (read() returns <= 1 / 1,2,3 / 7,1 / three random sizes / unbounded bytes per call); byte-level damage of real patches (header truncated at 0..31, body truncated, signature bit, each size field set to -1 / 0 / +-1 / 1e9 / 1e9+1 / i64::MIN / i64::MAX / the bytes available, sizes swapped, diff swallowing the extra block, trailing garbage, body bit flip) for the length clause on bytes and memory == streaming; hand-made headers around every validate comparison; the private offtout / offtin at i64::MIN, MIN+1, MAX, +-0, +-2^56, +-2^62 and random magnitudes of every bit length; unseekable source; default buffer. non-trivial = built patch has a diff run or >= 2 control entries (or is a mutated patch / codec value / header probe; short-read cases need a non-empty old); distinct = (builder, patcher, old, new) text".into();
     let mut rng = Rng::new(args.seed);
     let mut st = St { old: vec![], new: vec![] };
 
@@ -503,6 +807,21 @@ fn main() {
                                 }
                             }
                         }
+                    }
+                    s.case(Some(&l));
+                }
+                ["applyp", _, rest @ ..] => {
+                    // length clause on explicit patch BYTES
+                    let ph = if toks[1] == "stream" { rest.get(1) } else { rest.first() };
+                    if let (Some(ph), false) = (ph.and_then(|x| unhex(x)), r.starts_with("err") || r == "bad-op" || r == "panic") {
+                        let n = if r == "-" { 0 } else { r.len() as i64 / 2 };
+                        let stated = if ph.len() >= 32 { Some(i64::from_le_bytes(ph[24..32].try_into().unwrap())) } else { None };
+                        if stated != Some(n) {
+                            s.oracle_fail("ok-length-bytes:replay", &format!("Ok output of {n} bytes, header says {stated:?}"), &[format!("begin {} {}", hex(&st.old), hex(&st.new)), l.clone()]);
+                        }
+                    }
+                    if r == "panic" {
+                        s.oracle_fail("apply-panics-bytes:replay", "panic", &[l.clone()]);
                     }
                     s.case(Some(&l));
                 }
@@ -663,6 +982,71 @@ fn main() {
                     cx.s.oracle_fail("stream-size-from-caller", &format!("ZbsdiffPatcher::new(old, {caller}).apply_patch_from_data returns Ok with {n} bytes for a patch whose header says {hdr}: the header's output_size is never compared"), &[begin.clone(), areq.clone()]);
                 }
             }
+        }
+    }
+
+    // 4c. control-entry codec at the i64 limits (K on the crate's private offtout / offtin through
+    //     ControlBlock::{to_compressed, from_compressed}); O: every value but i64::MIN survives
+    {
+        emit(cx.s, &mut cx.st, "begin - -".to_string());
+        let mut vals: Vec<i64> = vec![i64::MIN, i64::MIN + 1, i64::MAX, i64::MAX - 1, 0, 1, -1, 127, 128, -128, 255, 256, -256,
+            1 << 56, -(1 << 56), (1 << 56) - 1, 1 << 62, -(1 << 62), (1i64 << 62) + 12345, 10_000_000, 10_000_001, -10_000_001];
+        for _ in 0..(if thorough { 400 } else { 60 }) {
+            let sh = rng.below(64);
+            vals.push((rng.next() >> sh) as i64);
+            vals.push(((rng.next() >> sh) as i64).wrapping_neg());
+        }
+        for v in vals {
+            let enc = emit(cx.s, &mut cx.st, format!("codec enc {v}"));
+            cx.s.tally("codec.enc");
+            if enc.len() == 16 {
+                let dec = emit(cx.s, &mut cx.st, format!("codec dec {enc}"));
+                cx.s.tally("codec.dec");
+                if v != i64::MIN && dec != v.to_string() {
+                    cx.s.oracle_fail("codec-roundtrip", &format!("seek {v} is written as {enc} and read back as {dec}"), &[format!("codec enc {v}"), format!("codec dec {enc}")]);
+                }
+            }
+            cx.s.case(Some(&format!("codec|{v}")));
+        }
+        let mut raws: Vec<[u8; 8]> = vec![[0, 0, 0, 0, 0, 0, 0, 0x80], [0xff; 8], [0xff, 0xff, 0xff, 0xff, 0xff, 0xff, 0xff, 0x7f], [0, 0, 0, 0, 0, 0, 0, 0x7f], [1, 0, 0, 0, 0, 0, 0, 0x80]];
+        for _ in 0..(if thorough { 200 } else { 30 }) {
+            let mut b = [0u8; 8];
+            b.copy_from_slice(&rng.bytes(8));
+            raws.push(b);
+        }
+        for b in raws {
+            emit(cx.s, &mut cx.st, format!("codec dec {}", hex(&b)));
+            cx.s.tally("codec.dec");
+            cx.s.case(Some(&format!("codec-raw|{}", hex(&b))));
+        }
+    }
+    // 4d. old source that cannot seek, default buffer size, header reader on hand-made prefixes
+    {
+        let new = rng.bytes(40);
+        let old = rng.bytes(30);
+        emit(cx.s, &mut cx.st, format!("begin {} {}", hex(&old), hex(&new)));
+        let c = ctl_bytes(&[(20, 20, -5)]);
+        let d = rng.bytes(20);
+        emit(cx.s, &mut cx.st, format!("apply noseek 1024 {} {} {} 40", hex(&c), hex(&d), hex(&new[..20])));
+        emit(cx.s, &mut cx.st, format!("apply streamd {} {} {} 40", hex(&c), hex(&d), hex(&new[..20])));
+        emit(cx.s, &mut cx.st, format!("apply sread 1 1024 {} {} {} 40", hex(&c), hex(&d), hex(&new[..20])));
+        emit(cx.s, &mut cx.st, format!("apply sread 3,1 1024 {} {} {} 41", hex(&c), hex(&d), hex(&new[..20])));
+        cx.s.case(None);
+        for (cs, ds, os) in [(0i64, 0i64, 0i64), (5, 5, 5), (-1, 0, 0), (0, -1, 0), (0, 0, -1), (1_000_000_000, 0, 0), (1_000_000_001, 0, 0),
+            (0, 1_000_000_001, 0), (0, 0, 1_000_000_001), (600_000_000, 400_000_000, 1), (600_000_000, 400_000_001, 1), (i64::MAX, i64::MAX, 0), (i64::MIN, 0, 0), (0, 0, i64::MIN), (0, 0, 1_000_000_000)] {
+            let mut p = vec![];
+            p.extend_from_slice(&ZBSDIFF1_SIGNATURE.to_le_bytes());
+            p.extend_from_slice(&cs.to_le_bytes());
+            p.extend_from_slice(&ds.to_le_bytes());
+            p.extend_from_slice(&os.to_le_bytes());
+            p.extend(rng.bytes(10));
+            let zt = unz_pairs(&p);
+            emit(cx.s, &mut cx.st, format!("hdr {}", hex(&p)));
+            emit(cx.s, &mut cx.st, format!("container {}", hex(&p)));
+            emit(cx.s, &mut cx.st, format!("applyp mem {}{zt}", hex(&p)));
+            emit(cx.s, &mut cx.st, format!("applyp stream 1024 {}{zt}", hex(&p)));
+            cx.s.tally("probe.header-fields");
+            cx.s.case(Some(&format!("hdr|{cs}|{ds}|{os}")));
         }
     }
 
